@@ -18,8 +18,19 @@ answer the client sends (protocol, call id, success/error); the oracle (`oracle_
 alone, that every received request was handed exactly once to the server registered for its protocol (with its method
 and body) or refused with Core::NotImplemented, and answered exactly once under its own call id — and `oracle` that no
 call of ours was completed by such a request.
+Several connections in one process (`gen_multi`, `judge_multi`): 2..3 RMCClient objects — each with its own settings object,
+transport, servers and records — live in ONE event loop / task group (what BackEndClient.login, a server or a proxy do).
+All of them count their calls from 1, so equal call ids are outstanding on several connections at once. While the
+observed connection goes through every response order x closure point, another connection acts at every point of that
+schedule: registers calls (the same ids), gets them answered with its own data, receives strays / requests carrying the
+ids outstanding elsewhere, is closed by its peer or locally with or without calls outstanding; plus random interleavings
+of 2..3 scenarios drawn from all the single-connection families. EVERY connection is judged by `oracle` on its own log
+alone (each call gets the response with its id that arrived ON ITS CONNECTION; a closure of another connection neither
+raises, nor hangs, nor completes anything here), and the whole process is replayed, in its real order, through the
+compiled model of a process (`Nx.RmcClient.lift`: a list of independent connection states, `conn <i>` selects one),
+which must predict every connection's ids, outcomes, warnings and final white-box state.
 """
-import itertools, struct, multiprocessing, os
+import copy, itertools, struct, multiprocessing, os, pickle, re, subprocess, sys
 import rmc_client_sim as R
 
 LEVEL = "proof"
@@ -602,6 +613,288 @@ def oracle_addressed(sim, crash_at):
     return bad
 
 
+# ---------------------------------------------------------------- several connections in one process
+def retag(sc, c):
+    """the data the peer of connection c sends differ from what any other connection's peer sends for the same call ids / tasks"""
+    for st in sc["steps"]:
+        if st[0] in ("resp", "ans"): st[3] += 16 * c
+        elif st[0] == "preq": st[4] += 16 * c
+    return sc
+
+
+def chunks_of(sc):
+    """the steps of a scenario built by mk() as two blocks: registering its calls (up to the first yield) / everything after"""
+    st = sc["steps"]
+    k = next((i + 1 for i, x in enumerate(st) if x[0] == "yield"), len(st)) if any(x[0] == "start" for x in st) else 0
+    return [st[:k], st[k:]] if 0 < k < len(st) else [st]
+
+
+def place(nv, blocks, points):
+    """order list: connection 0 has nv steps; the blocks of connection 1 are executed at the given points (non-decreasing
+    numbers of steps connection 0 has executed before)"""
+    order, done = [], 0
+    for b, p in zip(blocks, points):
+        order += [0] * (p - done); done = p
+        order += [1] * len(b)
+    return order + [0] * (nv - done)
+
+
+def gen_multi(ctx, singles):
+    """F10: several live connections in one process.
+    (a) observed connection V: 1..3 calls (3: sampled in quick), every response order, no closure / a closure after every
+        prefix, two scheduling policies; another connection W does one thing out of a catalogue — closes idle (every
+        kind), receives strays / a peer request carrying V's outstanding ids, registers 1 / n / n+1 calls (same counter
+        start, or shifted) and gets them answered with its own data in some order, is closed with them outstanding,
+        receives duplicates — with its call registration placed at every point p of V's schedule and the rest at every
+        point q >= p.
+    (b) 2..3 scenarios drawn from ALL single-connection families (permutations, closures, strays, one-way, servers with
+        logout hooks, traffic in both directions, wrap, malformed datagrams), interleaved at random (step by step or in
+        runs)."""
+    rng, quick = ctx.rng, ctx.tier == "quick"
+    out = []
+    def observed(n):
+        for perm in itertools.permutations(range(n)):
+            for yp in ("y1", "batch"):
+                yield mk(n, perm, akinds(rng, n), None, None, YP[yp], rng)
+                for pos in range(n + 1):
+                    yield mk(n, perm, akinds(rng, n), pos, rng.choice(CLOSE_KINDS), YP[yp], rng, spawn_close=int(rng.random() < 0.3))
+    def catalogue(n):
+        ids = list(range(1, n + 1))
+        cat = []
+        for ck in CLOSE_KINDS:
+            cat.append(("idle-" + ck, mk(0, (), [], 0, ck, y1, rng, spawn_close=int(rng.random() < 0.3))))
+        sh = ids[:]; rng.shuffle(sh)
+        cat.append(("stray", mk(0, (), [], None, None, rng.choice([y1, ybatch]), rng, extras={0: [("unknown", i, rng.choice(["ok", "err"])) for i in sh]})))
+        cat.append(("stray-close", mk(0, (), [], 0, rng.choice(CLOSE_KINDS), y1, rng, extras={0: [("unknown", rng.choice(ids), "ok")]})))
+        srv = rng.random() < 0.5
+        cat.append(("peer-request", mk(0, (), [], None, None, y1, rng, servers=[["ret"]] if srv else None, spawn_close=1,
+                                       extras={0: [("preq", 0x50 if srv else 10, rand_method(rng), ("abs", rng.choice(ids)))]})))
+        for m in sorted({1, n, n + 1}):
+            perm = list(range(m)); rng.shuffle(perm)
+            cat.append(("calls%+d" % (m - n), mk(m, perm, akinds(rng, m), None, None, rng.choice([y1, y1, ybatch]), rng)))
+        for _ in range(2):
+            m = rng.choice([1, n, n + 1]); perm = list(range(m)); rng.shuffle(perm)
+            cat.append(("calls-close", mk(m, perm, akinds(rng, m), rng.randint(0, m), rng.choice(CLOSE_KINDS), y1, rng, spawn_close=int(rng.random() < 0.3))))
+        m = rng.choice([1, n]); perm = list(range(m)); rng.shuffle(perm)
+        cat.append(("calls-dup", mk(m, perm, akinds(rng, m), None, None, y1, rng, extras={rng.randint(0, m): [("dup", rng.randrange(m), rng.choice(["ok", "err"]))]})))
+        m = rng.choice([1, n]); perm = list(range(m)); rng.shuffle(perm)
+        cat.append(("calls-shifted", mk(m, perm, akinds(rng, m), rng.choice([None, rng.randint(0, m)]), rng.choice(CLOSE_KINDS), y1, rng, start_id=rng.choice([2, n, n + 1]))))
+        return cat
+    for n in (1, 2, 3):
+        todo = []
+        for v in observed(n):
+            nv = len(v["steps"])
+            for name, w in catalogue(n):
+                blocks = chunks_of(w)
+                for points in itertools.combinations_with_replacement(range(nv + 1), len(blocks)):
+                    todo.append((v, name, w, blocks, points))
+        if n == 3 and quick:
+            todo = rng.sample(todo, 6000)
+        for v, name, w, blocks, points in todo:
+            out.append({"multi": [copy.deepcopy(v), retag(copy.deepcopy(w), 1)], "order": place(len(v["steps"]), blocks, points),
+                        "fam": "multi%d:%s" % (n, name)})
+    # (b) random interleavings of 2..3 scenarios of any family
+    small = [sc for sc in singles if len(sc["steps"]) <= 24]
+    for _ in range(4000 if quick else 100000):
+        k = rng.choice([2, 2, 3])
+        scs = [retag(copy.deepcopy(rng.choice(small)), i) for i in range(k)]
+        order = [i for i, sc in enumerate(scs) for _ in sc["steps"]]
+        if rng.random() < 0.5:
+            rng.shuffle(order)
+        else:       # in runs: each connection executes a few steps in a row
+            left = [len(sc["steps"]) for sc in scs]
+            order = []
+            while any(left):
+                i = rng.choice([j for j in range(k) if left[j]])
+                r = min(left[i], rng.randint(1, 4))
+                order += [i] * r; left[i] -= r
+        out.append({"multi": scs, "order": order, "fam": "multi:mixed%d" % k})
+    return out
+
+
+def render_op(line):
+    if line.startswith("recv "):
+        h = line[5:]
+        data = bytes.fromhex(h) if h != "-" else b""
+        r = parse_resp(data)
+        if r: return "recv response(call id %d: %s)" % r
+        q = parse_req(data)
+        if q: return "recv REQUEST(protocol 0x%x, call id %d)" % (q[0], q[1])
+        return "recv " + h
+    return line
+
+
+def schedule_of(sims, limit=60):
+    """the real order of the atomic sections of the whole process, 'c<connection>:<what>'"""
+    g = sims[0].glog
+    items = ["c%d:%s" % (c, render_op(sims[c].oplog[i])) for c, i in g]
+    return ", ".join(items[:limit]) + (", ... (%d more)" % (len(items) - limit) if len(items) > limit else "")
+
+
+def cross_note(sims, c, why):
+    """what the other connections of the process did that explains a failure on connection c (facts from the logs only)"""
+    m = re.search(r"task (\d+)", why)
+    notes = []
+    if m and int(m.group(1)) < len(sims[c].callers):
+        call = sims[c].callers[int(m.group(1))]
+        out = call["outcome"]
+        if out and (out.startswith("body ") or out.startswith("rmc ")):
+            for d, o in enumerate(sims):
+                if d == c: continue
+                for i, l in enumerate(o.oplog):
+                    if l.startswith("recv ") and l[5:] != "-":
+                        r = parse_resp(bytes.fromhex(l[5:]))
+                        if r and r[1] == out:
+                            notes.append("%r is what the peer of connection %d sent ON CONNECTION %d (its op %d, call id %d)" % (out, d, d, i, r[0]))
+                            break
+        if out in ("closed", "keyerror") or out is None:
+            for d, o in enumerate(sims):
+                if d != c and any(l in ("eof", "cleanup") for l in o.oplog):
+                    notes.append("connection %d was closed (%s); connection %d %s" % (
+                        d, next(l for l in o.oplog if l in ("eof", "cleanup")), c,
+                        "was closed too" if any(l in ("eof", "cleanup") for l in sims[c].oplog) else "was never closed"))
+        same = [d for d, o in enumerate(sims) if d != c and any(q["sent_id"] == call["sent_id"] for q in o.callers)]
+        if same:
+            notes.append("call id %r was also used by a call on connection(s) %s" % (call["sent_id"], ",".join(map(str, same))))
+    return "; ".join(notes)
+
+
+def multi_model_lines(sims):
+    """the whole process through the model of a process, in the real order; -> (lines, per connection: indices of its output lines)"""
+    lines, mine = ["proc"], [[] for _ in sims]
+    for c, sim in enumerate(sims):
+        lines.append("conn %d" % c)
+        mine[c].append(len(lines))
+        lines.append("new %d %d" % (sim.sc.get("start_id", 1), len(sim.sc.get("servers", []))))
+    cur = len(sims) - 1
+    for c, i in sims[0].glog:
+        l = sims[c].oplog[i]
+        if l == "loopcrash": continue
+        if c != cur:
+            lines.append("conn %d" % c); cur = c
+        mine[c].append(len(lines))
+        lines.append(l)
+    for c in range(len(sims)):
+        lines.append("conn %d" % c)
+        mine[c] += [len(lines), len(lines) + 1]
+        lines += ["dump", "xdump"]
+    return lines, mine
+
+
+def overlapping_ids(sims):
+    """number of pairs of calls on DIFFERENT connections that were outstanding at the same time under the same call id"""
+    pos = {}
+    for g, (c, i) in enumerate(sims[0].glog):
+        pos[(c, i)] = g
+    end = len(sims[0].glog)
+    spans = []
+    for c, sim in enumerate(sims):
+        for q in sim.callers:
+            if q["sent_id"] is not None and not q["noresp"]:
+                a = pos.get((c, q["call_at"]), 0)
+                b = pos.get((c, q["done_at"]), end) if q["outcome"] is not None else end
+                spans.append((c, q["sent_id"], a, b))
+    return sum(1 for x in spans for y in spans if x[0] < y[0] and x[1] == y[1] and x[2] <= y[3] and y[2] <= x[3])
+
+
+def _work_multi(chunk):
+    res = []
+    for sims in R.run_many_multi(chunk):
+        res.append([{"oplog": sim.oplog, "callers": sim.callers, "final": sim.final, "warn_after": sim.warn_after, "sc": sim.sc,
+                     "recv_addr": sim.recv_addr, "hook_entries": sim.hook_entries, "dispatches": sim.dispatches, "sends_at": sim.sends_at,
+                     "glog": sim.glog if sim.conn == 0 else None, "conn": sim.conn} for sim in sims])
+    return res
+
+
+def run_real_multi(mscs, par):
+    if par <= 1 or len(mscs) < 200:
+        parts = [_work_multi(mscs)]
+    else:
+        chunks = [mscs[i:i + 250] for i in range(0, len(mscs), 250)]
+        with multiprocessing.get_context("fork").Pool(par) as pool:
+            parts = pool.map(_work_multi, chunks)
+    return [[_S(d) for d in run] for p in parts for run in p]
+
+
+_FRESH = ("import sys, pickle; d = pickle.load(sys.stdin.buffer); sys.path[:] = d['path']; import corr_C10; "
+          "pickle.dump(corr_C10._work_multi([d['msc']]), sys.stdout.buffer)")
+
+
+def run_fresh_multi(msc):
+    """one multi-connection scenario in a fresh interpreter that has run nothing before (a failing input must fail by itself)"""
+    p = subprocess.run([sys.executable, "-c", _FRESH], input=pickle.dumps({"path": list(sys.path), "msc": msc}),
+                       stdout=subprocess.PIPE, stderr=subprocess.PIPE, timeout=120)
+    (run,) = pickle.loads(p.stdout)
+    return [_S(d) for d in run]
+
+
+def oracle_multi(sims):
+    """the property for every connection of the process, each judged on its own log alone -> [(connection, key, why)]"""
+    return [(c, key, why) for c, sim in enumerate(sims) for key, why in oracle(sim)]
+
+
+def judge_multi(ctx, mscs, runs, drv):
+    lines, spans = [], []
+    for sims in runs:
+        ml, mine = multi_model_lines(sims)
+        spans.append((len(lines), mine))
+        lines += ml
+    outs = drv.batch(lines)
+    n_diff, first_diff, n_overlap, n_conn = 0, None, 0, 0
+    cands = {}      # violation key -> [(size, index of the run, connection, why)]
+    for idx, (msc, sims, (base, mine)) in enumerate(zip(mscs, runs, spans)):
+        fam = msc.get("fam", "")
+        ov = overlapping_ids(sims)
+        n_overlap += ov
+        n_conn += len(sims)
+        ctx.case(key=repr(msc["multi"]) + repr(msc["order"]), nontrivial=sum(len(s.callers) for s in sims) > 0, tag="fam=" + fam.split(":")[0],
+                 sample={"scenario": msc, "schedule": schedule_of(sims), "oplogs": [s.oplog for s in sims]} if ctx.evaluations % 3989 == 0 else None)
+        ctx.tag("multi:connections=%d" % len(sims))
+        if ov: ctx.tag("multi:equal-ids-outstanding-on-two-connections")
+        if sum(1 for s in sims if any(l in ("eof", "cleanup") for l in s.oplog)) not in (0, len(sims)) and any(c["outcome"] not in (None, "closed") or True for s in sims for c in s.callers):
+            ctx.tag("multi:one-closed-others-open")
+        all_diffs = []
+        for c, sim in enumerate(sims):
+            o = [outs[base + j] for j in mine[c]]
+            diffs, flags = compare(sim, o)
+            if "SPECDIFF" in flags and "H-IDS-BROKEN" not in flags:
+                ctx.corr_break("C10_refines_spec-at-runtime", "the compiled model and the compiled specification disagree although live ids are distinct",
+                               {"scenario": msc, "connection": c, "oplog": sim.oplog, "model": o})
+            if diffs: all_diffs.append((c, diffs))
+            for k in {(q["outcome"] or "hung").split(" ")[0] for q in sim.callers}: ctx.tag("outcome=" + k)
+        for c, key, why in oracle_multi(sims):
+            size = (len(sims), sum(len(s.callers) for s in sims), len(msc["order"]))
+            cands.setdefault(key, []).append((size, idx, c, why))
+        if all_diffs:
+            n_diff += 1
+            if first_diff is None: first_diff = (msc, sims, all_diffs)
+    # report, per kind of failure, the smallest scenario that fails BY ITSELF in a process that has run nothing else
+    for key in sorted(cands):
+        cs = sorted(cands[key])[:8]
+        rep = None
+        for size, idx, c, why in cs:
+            try:
+                fresh = run_fresh_multi(mscs[idx])
+            except Exception:
+                break
+            hit = next(((c2, w2) for c2, k2, w2 in oracle_multi(fresh) if k2 == key), None)
+            if hit:
+                rep = (mscs[idx], fresh, hit[0], hit[1], "confirmed by running this scenario alone in a fresh process"); break
+        if rep is None:
+            size, idx, c, why = cs[0]
+            rep = (mscs[idx], runs[idx], c, why, "observed in a worker process that had run other scenarios before")
+        msc, sims, c, why, how = rep
+        note = cross_note(sims, c, why)
+        ctx.violation("c10:connections:" + key,
+                      "RMCClient, %d live connections in one process, connection %d: %s%s. Schedule of the process: %s" % (
+                          len(sims), c, why, " [" + note + "]" if note else "", schedule_of(sims)),
+                      {"scenario": msc, "failing_connection": c, "schedule": schedule_of(sims, 10 ** 6), "oplogs": [s.oplog for s in sims],
+                       "callers": [[{k: (v.hex() if isinstance(v, bytes) else v) for k, v in q.items()} for q in s.callers] for s in sims],
+                       "final": [s.final for s in sims], "reproduction": how,
+                       "how": "./check C10 --replay <this file>: rmc_client_sim.run_many_multi([scenario]) (all connections in one event loop), then oracle() on every connection"})
+    return n_diff, first_diff, len(lines), n_overlap, n_conn
+
+
 # ---------------------------------------------------------------- model replay
 def model_lines(sim):
     lines = ["new %d %d" % (sim.sc.get("start_id", 1), len(sim.sc.get("servers", [])))]
@@ -772,6 +1065,12 @@ def run(ctx):
                 "overlap / repeat / avoid the ids of our outstanding calls x every response order x every placement of the requests among the responses, "
                 "to 1..2 registered servers (handlers answering at once, late, raising RMCError / other exceptions) or to unregistered protocols, plus "
                 "closures at every prefix, 4 calls x 1..2 requests, sampled mixes up to 6 x 6 with one-way / late calls and slow answer sends, counter wrap. "
+                "Several live connections in one process (2..3 RMCClient objects in one event loop, all counting their calls from 1): the observed "
+                "connection goes through every response order of 1..3 calls (3: sampled in quick) x no closure / closure after every prefix while another "
+                "connection closes idle, receives strays / a peer request with the ids outstanding elsewhere, registers 1/n/n+1 calls under the same or "
+                "shifted ids and gets them answered with its own data, is closed with calls outstanding, receives duplicates - its registration at every "
+                "point p and the rest at every point q >= p of that schedule; plus random interleavings of 2..3 scenarios of all the families above; "
+                "every connection judged on its own log, the process replayed in real order through the model of a process. "
                 "Each run's op log is replayed through the Lean model; a case counts as distinct non-trivial per distinct "
                 "scenario with at least one call")
     ctx.assumptions.append("anyio/asyncio wake a task whose Event was set and run the code between two awaits atomically (trusted runtime); "
@@ -789,6 +1088,22 @@ def run(ctx):
     ctx.extra["peer_requests_received"] = sum(1 for sim in sims for l in sim.oplog if l.startswith("recv ") and parse_req(bytes.fromhex(l[5:]) if l[5:] != "-" else b"") is not None)
     ctx.extra["peer_requests_dispatched"] = sum(len(sim.dispatches) for sim in sims)
     ctx.extra["peer_requests_colliding_with_outstanding_call"] = sum(n_colliding(sim) for sim in sims)
+    # several live connections in one process
+    mscs = gen_multi(ctx, scs)
+    runs = run_real_multi(mscs, par)
+    m_diff, m_first, m_lines, n_overlap, n_conn = judge_multi(ctx, mscs, runs, drv)
+    ctx.traces_validated += n_conn
+    ctx.extra["multi_connection_processes"] = len(runs)
+    ctx.extra["multi_connection_connections"] = n_conn
+    ctx.extra["multi_connection_model_lines"] = m_lines
+    ctx.extra["multi_connection_processes_differing_from_model"] = m_diff
+    ctx.extra["pairs_of_calls_outstanding_on_two_connections_under_one_id"] = n_overlap
+    if m_diff and not ctx.violations and not ctx.known_hits:
+        msc, msims, all_diffs = m_first
+        ctx.corr_break("rmcclient-process-model-correspondence", "a process with several live RMCClient objects and the Lean model of a process (independent connection "
+                       "states) disagree on %d of %d runs; first: %s" % (m_diff, len(runs), [(c, d[:2]) for c, d in all_diffs][:3]),
+                       {"scenario": msc, "schedule": schedule_of(msims, 10 ** 6), "oplogs": [x.oplog for x in msims], "diffs": all_diffs,
+                        "theorems_no_longer_tied": ["Nx.C10.connections_independent", "Nx.C10.no_cross_talk_between_connections", "Nx.C10.close_wakes_all_of_that_connection"]})
     if n_diff and not ctx.violations and not ctx.known_hits:
         sim, o, diffs = first
         ctx.corr_break("rmcclient-model-correspondence", "real RMCClient and the Lean model disagree on %d of %d scenarios; first: %s" % (n_diff, len(sims), diffs[:3]),
@@ -799,6 +1114,16 @@ def run(ctx):
 def replay(ctx, path):
     import json
     r = json.load(open(path))
+    if "multi" in r["scenario"]:
+        sims = run_real_multi([r["scenario"]], 1)[0]
+        print("schedule:", schedule_of(sims, 10 ** 6))
+        bad = oracle_multi(sims)
+        for c, sim in enumerate(sims):
+            print("--- connection %d" % c)
+            for q in sim.callers: print(q)
+            print(sim.final)
+        for c, key, why in bad: print("VIOLATION connection %d:" % c, key, why)
+        return 1 if bad else 0
     sims = run_real([r["scenario"]], 1)
     for sim in sims:
         print("\n".join(sim.oplog))
